@@ -145,10 +145,10 @@ def _meas_frame(draw, kind, int_ids_only):
             for _ in range(draw(st.integers(0, 3))):
                 dur = None if gen.chance(draw, 0.15) else draw(gen.logu(0.01, 1))
                 rows.append([i, _time(draw, int_times), None, None, draw(gen.logu(0.1, 100)), dur])
-    elif gen.chance(draw, 0.3) and not int_values:
+    elif gen.chance(draw, 0.4) and not int_values:
         for _ in range(draw(st.integers(1, 3))):
             rows.append([draw(st.sampled_from(ids)), _time(draw, int_times), None, None])
-    mode = draw(st.sampled_from(['asis', 'shuffle', 'shuffle', 'nanfirst']))
+    mode = draw(st.sampled_from(['asis', 'shuffle', 'shuffle', 'nanfirst', 'nanfirst']))
     if mode != 'asis':
         rows = list(draw(st.permutations(rows)))
     if mode == 'nanfirst':
@@ -239,8 +239,11 @@ def _probs(draw):
             p = draw(st.sampled_from([0.9, 0.5, 0.3, 0.6, 0.95, 0.99, 0.1, 0.8, 0.2, 0.7]))
         else:
             p = gen.r6(min(0.999999, max(1e-6, draw(st.floats(1e-6, 0.999999)))))
+        while p in out:
+            # keep the list pairwise distinct without leaving (0, 1)
+            p = gen.r6(p * 0.917)
         out.append(p)
-    return gen.distinct(out)
+    return out
 
 
 @st.composite
@@ -261,7 +264,7 @@ def _spec(draw):
                   keys=_keys(draw, ['time', 'value'], gen.chance(draw, 0.4)))
         spec['sim'] = _layout(draw, fr)
     elif plot in ('pd_pred', 'pk_pred'):
-        spec['with_data'] = bool(gen.chance(draw, 0.6))
+        spec['with_data'] = bool(gen.chance(draw, 0.7))
         names = list(draw(st.permutations(OBSPOOL)))[:draw(st.integers(1, 2))]
         spec['pred'] = draw(_pred_frame(kind, names))
         spec['pred_observable'] = names[0] if gen.chance(draw, 0.5) else None
@@ -287,6 +290,9 @@ def _spec(draw):
                 t = _time(draw, False)
                 if t not in times:
                     times.append(t)
+            if not times:
+                # every measurement of the observable has a NaN time: still predict something
+                times.append(_time(draw, False))
             for t in times:
                 for _ in range(draw(st.integers(1, 4))):
                     rows.append([t, o, draw(gen.logu(0.1, 100))])
